@@ -11,6 +11,7 @@ import (
 	"os"
 	"path/filepath"
 	"runtime/debug"
+	"sort"
 	"strconv"
 	"strings"
 
@@ -75,9 +76,24 @@ func (w *Workspace) dirFor() string {
 	return dir
 }
 
+// ReverseCreate makes writeSpec create the .lox files in reverse name order
+// (directory enumeration order depends on creation order on some file systems;
+// the generator must not).
+var ReverseCreate bool
+
 func writeSpec(dir string, s *Spec) {
-	for n, t := range s.Lox {
-		if err := os.WriteFile(filepath.Join(dir, n), []byte(t), 0o666); err != nil {
+	var names []string
+	for n := range s.Lox {
+		names = append(names, n)
+	}
+	sort.Strings(names)
+	if ReverseCreate {
+		for i, j := 0, len(names)-1; i < j; i, j = i+1, j-1 {
+			names[i], names[j] = names[j], names[i]
+		}
+	}
+	for _, n := range names {
+		if err := os.WriteFile(filepath.Join(dir, n), []byte(s.Lox[n]), 0o666); err != nil {
 			panic(err)
 		}
 	}
